@@ -4,5 +4,4 @@ SPECIFICATION TDSpec
 CONSTRAINT Progress
 POSTCONDITION Accept
 CHECK_DEADLOCK FALSE
-INVARIANT Monotone
-INVARIANT TDocAccounted
+INVARIANT ReportP
